@@ -63,3 +63,40 @@ Proof.
     destruct (expiration_ahead c (Sof c) (Eof c) h s W P HS HK R C n T Hn Hs HT Hm) as (A & B & D).
     repeat split; assumption.
 Qed.
+
+(* shutdown handlers that take time: the schedule with shutdown phases, stated with the executable
+   solver solveH; a nested scheduler ends -- for the jobs that require it -- after its own shutdown phase *)
+Definition SofH (c : cfg) : nat -> N := tab (fst (solveH c)).
+Definition EofH (c : cfg) : nat -> N := tab (snd (solveH c)).
+Definition solvedH_ok (c : cfg) : bool := is_scheduleHb c (fst (solveH c)) (snd (solveH c)).
+Definition slackH_ok (c : cfg) : bool :=
+  forallb (fun n => negb (j_sched (jc c n)) ||
+                    match j_timeout (jc c n) with
+                    | Some T => N.ltb (maxl (SofH c n) (map (EofH c) (members c n))) (SofH c n + T)
+                    | None => true
+                    end) (all_ids c).
+
+Lemma slackH_ok_sound c : slackH_ok c = true -> slackH c (SofH c) (EofH c).
+Proof.
+  unfold slackH_ok, slackH. intros H n T Hn Hs HT. rewrite forallb_forall in H.
+  assert (Hin : In n (all_ids c)) by (unfold all_ids; apply In_seqn; exact Hn).
+  specialize (H n Hin). rewrite Hs, HT in H. cbn in H. apply N.ltb_lt. exact H.
+Qed.
+
+Theorem runs_on_computed_scheduleH c h s : wf c = true -> plainH c = true ->
+  solvedH_ok c = true -> slackH_ok c = true -> Reach 3 c h s -> calm c (EofH c) s ->
+  (forall x, x < njobs c -> x <> 0 -> on_schedule c (SofH c) (EofH c) s x) /\
+  (forall n, n < njobs c -> j_sched (jc c n) = true ->
+     let M := maxl (SofH c n) (map (EofH c) (members c n)) in
+     (ph (Rn s n) = PMain -> (SofH c n <= now s)%N /\ (now s <= M)%N) /\
+     (ph (Rn s n) = PShut WSuccess -> (M <= now s)%N /\ (now s <= M + shut_len c n)%N) /\
+     (ph (Rn s n) = POver -> (M + shut_len c n <= now s)%N /\ (n <> 0 -> (EofH c n <= now s)%N)) /\
+     okph (ph (Rn s n))).
+Proof.
+  intros W P K L R C.
+  assert (HS : is_scheduleH c (SofH c) (EofH c)) by exact (is_scheduleHb_sound c _ _ K).
+  assert (HL : slackH c (SofH c) (EofH c)) by exact (slackH_ok_sound c L).
+  split.
+  - exact (runs_on_scheduleH c (SofH c) (EofH c) h s W P HS HL R C).
+  - exact (shutdown_phase_on_schedule c (SofH c) (EofH c) h s W P HS HL R C).
+Qed.
